@@ -3,7 +3,7 @@
 //!
 //! Protocol (one request per line, one answer per line):
 //! ```text
-//! lex <hex src>                 -> toks=<T> diags=<D> labels=<L> end=<ok|panic|abort|timeout>
+//! lex <hex src>                 -> toks=<T> diags=<D> labels=<L> caps=<C> end=<ok|panic|abort|timeout>
 //! relay <hex orig> <hex text>   -> the same answer for <text>; the oracle additionally requires the
 //!                                  kinds and payloads of <text> to equal those of <orig> (C10)
 //! ```
@@ -12,14 +12,21 @@
 //! i.e. the literal contained an escape). The list always ends with the `eof` the parser makes up
 //! when the iterator returns `None` (`0:0` with no token, else `h:h`, `h` = end of the last token).
 //! `<D>` = `pipeline::diags_str`, `<L>` = `pipeline::labels_str` of `lexer.errors`.
+//! `<C>`: `buffer.capacity()` of every `ArenaCow::Owned` string token, in token order, joined by `,`
+//! (`-` = none): what `scan_string` made the bump arena hand out for the token (model:
+//! `Model/LexMem.lean`, `lexCaps`; the arena never takes it back, so the sum is the lexer's share of D-19).
 //! A request whose payload is not valid UTF-8 is answered `bad-utf8` (a `&str` cannot hold it).
 //!
 //! `run` answers every case inside a child process (`nvh lex worker`) that is fed line by line over
 //! pipes: a stack overflow or an abort kills only the child; the in-flight case is answered
-//! `toks=? diags=? labels=? end=abort`, a hang `end=timeout`, and a new child is started.
+//! `toks=? diags=? labels=? caps=? end=abort`, a hang `end=timeout`, and a new child is started.
 //! Implementation-level oracle (needs no model): `end=ok`; every token / diagnostic / label span is
 //! ordered, within the text and on `is_char_boundary`; token spans do not overlap and do not go
-//! backwards; string payloads are valid UTF-8. Failures: `ORACLE-FAIL <line> <what>` on stderr.
+//! backwards; string payloads are valid UTF-8; string buffers hold their content, each capacity is at
+//! most `2·extent` (`2·(|text| - start)` if the token's quote character does not occur again) and all
+//! capacities of one text sum to at most `3·|text|` (`Props/C07Mem.lean`: `strCap_le`,
+//! `lexCaps_sum_le`, checked here on the real capacities).
+//! Failures: `ORACLE-FAIL <line> <what>` on stderr.
 
 use std::io::{BufRead, BufReader, Write};
 use std::process::{Child, ChildStdin, Command, Stdio};
@@ -52,7 +59,7 @@ pub fn main(args: &[String]) -> i32 {
         }
         _ => {
             eprintln!(
-                "usage: nvh lex gen --seed S --n N --kind grammar|trunc|relayout|deep [--repo DIR] | nvh lex run [--inproc] < requests"
+                "usage: nvh lex gen --seed S --n N --kind grammar|strings|trunc|relayout|deep [--repo DIR] | nvh lex run [--inproc] < requests"
             );
             2
         }
@@ -167,6 +174,26 @@ pub fn toks_text(toks: &[SpannedToken<'_>]) -> String {
     toks.iter().map(tok_str).collect::<Vec<_>>().join(",")
 }
 
+/// `(token index, buffer.capacity())` of every `ArenaCow::Owned` string token.
+pub fn owned_caps(toks: &[SpannedToken<'_>]) -> Vec<(usize, usize)> {
+    toks.iter()
+        .enumerate()
+        .filter_map(|(i, t)| match &t.token {
+            Token::String(ArenaCow::Owned(s)) => Some((i, s.capacity())),
+            _ => None,
+        })
+        .collect()
+}
+
+/// The `caps=` field: capacities of the owned string tokens in order (`-` = none).
+pub fn caps_text(toks: &[SpannedToken<'_>]) -> String {
+    let caps = owned_caps(toks);
+    if caps.is_empty() {
+        return "-".to_string();
+    }
+    caps.iter().map(|(_, c)| c.to_string()).collect::<Vec<_>>().join(",")
+}
+
 /// The token list text of `src` (real `Lexer`, driven as the parser drives it).
 pub fn toks_str(src: &str) -> String {
     let arena = Arena::new(pipeline::ARENA_CAP).unwrap();
@@ -209,6 +236,39 @@ fn oracle(src: &str, toks: &[SpannedToken<'_>], errs: &Diagnostics<'_>) -> Optio
             }
         }
     }
+    // the string buffers (C07Mem): content fits, per-token bound, linear total
+    let mut sum = 0usize;
+    for (i, cap) in owned_caps(toks) {
+        let t = &toks[i];
+        let len = match &t.token {
+            Token::String(c) => c.as_bytes().len(),
+            _ => 0,
+        };
+        let extent = t.span.end - t.span.start;
+        // `scan_string` left through an end-of-input exit only if its quote character does not occur again
+        let quote = src.as_bytes().get(t.span.start).copied();
+        let quote_later = quote.is_some_and(|q| src.as_bytes()[t.span.end.min(src.len())..].contains(&q));
+        let bound = if quote_later { 2 * extent } else { 2 * (src.len() - t.span.start.min(src.len())) };
+        if cap < len {
+            return Some(format!("string token {i}: buffer capacity {cap} below its length {len}"));
+        }
+        if cap > bound {
+            return Some(format!(
+                "string token {i} at {}..{}: buffer capacity {cap} exceeds {bound} = 2*{} (strCap_le)",
+                t.span.start,
+                t.span.end,
+                if quote_later { "extent" } else { "(|text| - start), its quote does not occur again" }
+            ));
+        }
+        sum += cap;
+    }
+    if sum > 3 * src.len() {
+        return Some(format!(
+            "string buffer capacities sum to {sum}, more than 3*|text| = {} (lexCaps_sum_le): {}",
+            3 * src.len(),
+            caps_text(toks)
+        ));
+    }
     for (i, d) in errs.diagnostics.iter().enumerate() {
         if let Some(w) = span_ok(src, d.span.start, d.span.end) {
             return Some(format!("diagnostic {i} span {}..{}: {w}", d.span.start, d.span.end));
@@ -233,10 +293,11 @@ fn lex_real(src: &str) -> Lexed {
     let mut lexer = Lexer::new(src, &arena);
     let toks = drive(&mut lexer);
     let answer = format!(
-        "toks={} diags={} labels={} end=ok",
+        "toks={} diags={} labels={} caps={} end=ok",
         toks_text(&toks),
         pipeline::diags_str(&lexer.errors),
-        pipeline::labels_str(&lexer.errors)
+        pipeline::labels_str(&lexer.errors),
+        caps_text(&toks)
     );
     let payloads = toks.iter().map(|t| tok_payload(&t.token)).collect();
     let oracle = oracle(src, &toks, &lexer.errors);
@@ -253,7 +314,7 @@ fn answer_line(line: &str) -> (String, Option<String>) {
             match util::catch(|| lex_real(&src)) {
                 Ok(l) => (l.answer, l.oracle),
                 Err(msg) => (
-                    "toks=? diags=? labels=? end=panic".into(),
+                    "toks=? diags=? labels=? caps=? end=panic".into(),
                     Some(format!("lexer panicked: {}", msg.replace('\n', " "))),
                 ),
             }
@@ -280,7 +341,7 @@ fn answer_line(line: &str) -> (String, Option<String>) {
                     (l.answer, fail)
                 }
                 Err(msg) => (
-                    "toks=? diags=? labels=? end=panic".into(),
+                    "toks=? diags=? labels=? caps=? end=panic".into(),
                     Some(format!("lexer panicked: {}", msg.replace('\n', " "))),
                 ),
             }
@@ -375,7 +436,7 @@ fn run(args: &[String]) -> i32 {
                     let status = k.child.wait().ok();
                     eprintln!("ABORT {} worker died: {:?}", lineno + 1, status);
                     (
-                        "toks=? diags=? labels=? end=abort".to_string(),
+                        "toks=? diags=? labels=? caps=? end=abort".to_string(),
                         Some(format!("lexer aborted the process ({})", status.map_or("?".to_string(), |s| s.to_string()))),
                     )
                 }
@@ -384,7 +445,7 @@ fn run(args: &[String]) -> i32 {
                     let mut k = kid.take().unwrap();
                     let _ = k.child.kill();
                     let _ = k.child.wait();
-                    ("toks=? diags=? labels=? end=timeout".to_string(), Some("lexer did not return within 20 s".to_string()))
+                    ("toks=? diags=? labels=? caps=? end=timeout".to_string(), Some("lexer did not return within 20 s".to_string()))
                 }
             }
         };
@@ -447,7 +508,12 @@ fn generate(args: &[String]) -> i32 {
     let repo = util::opt(args, "--repo").map(str::to_string).or_else(|| std::env::var("NV_REPO").ok()).unwrap_or_else(|| "/repo".to_string());
     let mut out = Out::new();
     match kind {
-        "grammar" => gen_grammar(seed, n, &mut out),
+        "grammar" => {
+            gen_grammar(seed, n, &mut out);
+            // the string-buffer cases ride along with the grammar stream (C07 runs that stream)
+            gen_strings(seed, n / 4, &mut out);
+        }
+        "strings" => gen_strings(seed, n, &mut out),
         "trunc" => gen_trunc(seed, n, &repo, &mut out),
         "relayout" => gen_relayout(seed, n, &repo, &mut out),
         "deep" => gen_deep(n, &mut out),
@@ -523,6 +589,171 @@ fn gen_grammar(seed: u64, n: u64, out: &mut Out) {
                 _ => SPACES,
             };
             s.push_str(rng.pick(cl));
+        }
+        req(out, &s);
+    }
+}
+
+// ------------------------------------------------------------------------------------------------
+// string literals: what `scan_string` reserves and how the buffer grows (`caps=`, Model/LexMem.lean)
+// ------------------------------------------------------------------------------------------------
+
+/// Hand-written texts: one per path of `scan_string` that touches the buffer.
+const STRING_SEEDS: &[&str] = &[
+    // escape at the start / in the middle / at the end; both quote characters
+    "\"\\nabc\"", "\"abc\\ndef\"", "\"abc\\n\"", "'\\nabc'", "'abc\\ndef'", "'abc\\n'", "\"\\n\"", "'\\t'",
+    // the hint is what is left up to the closing quote: escape directly before it
+    "\"\\\\\"", "\"a\\\\\"", "'\\\\'", "\"abcdefgh\\t\"",
+    // escaped quotes: the hint stops at the escaped quote and the buffer has to grow (8, 16, 32 …)
+    "\"\\\"\"", "\"\\\"\\\"\"", "\"\\\"\\\"\\\"\\\"\"", "\"\\\"\\\"\\\"\\\"\\\"\\\"\\\"\\\"\\\"\"",
+    "'\\'\\'\\'\\'\\'\\'\\'\\'\\'\\'\\'\\'\\'\\'\\'\\'\\''", "\"\\\"\\\"aaaaaaaaaaaaaaaaaaaa\\n\"", "\"\\\"\\\"aaaaaaaaaaaaaaaaaaaa\\nb\"",
+    "\"x\\\"yyyyyyyyyyyyyyyyyyyyyyyyyyyyyyyyyyyyyyyy\\\"z\"", "'a\\'bbbbbbbbbbbbbbbbb\\'cccccccccccccccccccccccccccccccccc\\'d'",
+    // the other quote character is no stop for the hint, and `\'` in a "…" string is an invalid escape
+    "\"a\\nb'c'd\"", "'a\\nb\"c\"d'", "\"\\'\"", "'\\\"'", "\"it\\'s\"",
+    // invalid escapes, also with 2-, 3- and 4-byte characters after the backslash
+    "\"\\x\"", "\"a\\xb\"", "\"\\é\"", "\"a\\éb\"", "\"\\€\"", "\"ab\\€cd\"", "\"\\😆\"", "\"a\\😆\"", "\"\\é\\€\\😆\\q\"",
+    "\"\\€", "\"\\😆", "'\\é",
+    // backslash + line end: the escape swallows the line end, the hint does not
+    "\"a\\\nb\"", "\"a\\\nbcdefghijklmnop\\n\"", "\"\\\n\\n\"", "\"a\\\rb\"", "\"a\\\r\nb\"", "\"a\\\r\nb\" \"c\\nd\"", "\"\\\n", "\"\\\r",
+    "'\\\n\\\n\\\n\\\nabc'",
+    // unterminated at a line end (LF, CR, CRLF) after an escape: content after the last escape is dropped
+    "\"a\\nb\ncd\"", "\"a\\nb\rcd\"", "\"a\\nb\r\ncd\"", "\"\\tabcdefghijkl\n", "'x\\ny\n'z\\nw\n",
+    // unterminated at the end of input: no quote/backslash left (cursor stays after the last escape) …
+    "\"a\\nb", "\"\\n", "\"\\n abc def ghi", "\"\\nabc 'd\\ne' 'f\\ng'", "'\\n \"a\\nb\" \"c\\nd\" xyz",
+    // … or a backslash as the last byte (cursor stays, the run before it IS pushed)
+    "\"abc\\", "\"\\", "\"a\\nb\\", "\"a\\nbcdefghijklmnopqrstuvwxyz\\", "\"x 'y \\", "\"a\\nb 'c\\", "'a \"b \\",
+    "\"\\\"\\\"aaaaaaaaaaaa\\nbbbbbbbbbbbbbbbbbbbbbbbbbbbbbb\\", "\"\\\"\\\"\\\"\\\"\\\"\\\"\\\"\\\"\\\"abcdefgh\\",
+    // several strings on one line, with and without separators
+    "\"a\\nb\" \"c\\td\" \"e\\\\f\"", "\"a\\nb\"\"c\\nd\"'e\\nf'", "shout(\"a\\nb\", 'c\\'d', \"e\")", "[\"\\n\",\"\\t\",\"\\\\\",\"\\\"\"]",
+    "make s get \"line1\\nline2\" add 'it\\'s' add \"q\\\"q\"",
+    // no escape at all: nothing is reserved
+    "\"abc\" 'def' \"\" ''", "\"abc", "\"abc\ndef",
+];
+
+const PLAIN: &[&str] = &["a", "b", "z", " ", "0", "#", ".", "{x}", "é", "€", "😆", "ab", "hello", "\t", "(", ","];
+
+/// One string literal (or a torso of one). Returns the text; `last` allows the end-of-input forms.
+fn gen_string_literal(rng: &mut Rng, last: bool) -> String {
+    let q = if rng.chance(1, 2) { '"' } else { '\'' };
+    let other = if q == '"' { '\'' } else { '"' };
+    let mut s = String::new();
+    s.push(q);
+    let pieces = match rng.below(8) {
+        0 => 1,
+        1..=4 => 1 + rng.below(4),
+        5..=6 => 3 + rng.below(8),
+        _ => 8 + rng.below(24),
+    };
+    // where escapes may go: 0 everywhere, 1 only at the start, 2 only at the end, 3 none
+    let placement = rng.below(10);
+    for i in 0..pieces {
+        let esc_here = match placement {
+            0..=5 => rng.chance(1, 2),
+            6 => i == 0,
+            7 => i + 1 == pieces,
+            8 => i == 0 || i + 1 == pieces,
+            _ => false,
+        };
+        if esc_here {
+            match rng.below(24) {
+                0..=3 => s.push_str("\\n"),
+                4 => s.push_str("\\t"),
+                5..=6 => s.push_str("\\\\"),
+                7..=11 => {
+                    // escaped own quote: the hint stops here; often a whole run of them
+                    let more = if rng.chance(1, 3) { rng.below(12) } else { 0 };
+                    for _ in 0..1 + more {
+                        s.push('\\');
+                        s.push(q);
+                    }
+                }
+                12 => {
+                    s.push('\\');
+                    s.push(other);
+                }
+                13..=14 => {
+                    s.push('\\');
+                    s.push_str(rng.pick(&["x", "q", " ", "0", "N", "#", "(", "\0", "\x7f"]));
+                }
+                15..=17 => {
+                    s.push('\\');
+                    s.push_str(rng.pick(MULTIBYTE));
+                }
+                18..=19 => s.push_str("\\\n"),
+                20 => s.push_str("\\\r"),
+                21 => s.push_str("\\\r\n"),
+                22 => s.push_str("\\\x0c"),
+                _ => s.push_str("\\\t"),
+            }
+        } else {
+            let run = match rng.below(10) {
+                0 => 0,
+                1..=6 => 1 + rng.below(4),
+                7..=8 => 4 + rng.below(14),
+                _ => 16 + rng.below(70),
+            };
+            for _ in 0..run {
+                if rng.chance(1, 12) {
+                    s.push(other);
+                } else {
+                    s.push_str(rng.pick(PLAIN));
+                }
+            }
+        }
+    }
+    match rng.below(if last { 16 } else { 12 }) {
+        0..=8 => s.push(q),
+        9 => s.push('\n'),
+        10 => s.push_str(rng.pick(&["\r", "\r\n"])),
+        11 => {
+            s.push(q);
+            s.push(q); // an empty string glued on
+        }
+        12..=13 => s.push('\\'), // backslash as the last byte
+        _ => {}                  // end of input
+    }
+    s
+}
+
+/// (v) string literals: `STRING_SEEDS`, every prefix of each of them (character boundaries), then `n`
+/// random lines of 1–6 literals with assorted separators; the last literal may run into the end of input.
+fn gen_strings(seed: u64, n: u64, out: &mut Out) {
+    let mut rng = Rng::new(seed ^ 0x57B5);
+    for t in STRING_SEEDS {
+        req(out, t);
+    }
+    for t in STRING_SEEDS {
+        for cut in 1..t.len() {
+            if t.is_char_boundary(cut) {
+                req(out, &t[..cut]);
+            }
+        }
+    }
+    // growth ladder: k escaped quotes, then a run of m bytes, then one more escape (2m+… capacities)
+    for k in [0usize, 1, 2, 3, 4, 7, 8, 9, 15, 16, 17, 33] {
+        for m in [0usize, 1, 5, 6, 7, 8, 9, 17, 40] {
+            for tail in ["\\n\"", "\\n", "\\", "\"", "\\nz\"", "\n"] {
+                req(out, &format!("\"{}{}{}", "\\\"".repeat(k), "a".repeat(m), tail));
+                req(out, &format!("'x\\n{}{}{}", "\\'".repeat(k), "é".repeat(m), tail.replace('"', "'")));
+            }
+        }
+    }
+    for _ in 0..n {
+        let many = rng.chance(1, 6);
+        let count = 1 + rng.below(if many { 12 } else { 4 });
+        let mut s = String::new();
+        if rng.chance(1, 5) {
+            s.push_str(rng.pick(&["shout(", "make s get ", "x add ", "[", "  ", "# c\n", "return "]));
+        }
+        for i in 0..count {
+            let last = i + 1 == count;
+            s.push_str(&gen_string_literal(&mut rng, last));
+            if !last {
+                s.push_str(rng.pick(&[" ", " ", "", ", ", " add ", "\n", "\r\n", " # c\n", ")", "\t", " x "]));
+            }
+        }
+        if rng.chance(1, 4) {
+            s.push_str(rng.pick(&[")", "\n", " ", " end", "\r\n"]));
         }
         req(out, &s);
     }
@@ -684,6 +915,9 @@ fn synth_tokens(rng: &mut Rng) -> Vec<(String, String)> {
                 rng.pick(&[
                     "\"abc\"", "'abc'", "\"\"", "''", "\"a\\nb\"", "\"\\\"\"", "'\\''", "\"\\\\\"", "\"héllo €\"", "\"{x}\"",
                     "\"it's\"", "'say \"hi\"'", "\"😆\"", "\"# no\"", "\"tab\there\"", "\"\\t\\n\"",
+                    // buffers that grow past the reservation, escapes at either end, both quote kinds
+                    "\"\\\"\\\"\\\"\\\"\\\"x\"", "'\\'\\'\\'\\'\\'\\'\\'\\'\\''", "\"\\\"\\\"aaaaaaaaaaaaaaaaaaaaaaaa\\n\"",
+                    "\"abcdefghijklmnop\\n\"", "\"\\nabcdefghijklmnop\"", "'a\\nb \"c\" d'", "\"x\\\\\"", "'€\\t😆\\'é'",
                 ])
                 .to_string(),
             ),
